@@ -48,6 +48,16 @@ def enumerated(tier, seed):
     for p in (e, f):
         for qs in ([f], [e], [g], [g, f, e]):
             yield dict(p=p, qs=qs, fresh=False)
+    # histories with INCLUDE: failures below an include must not leak into later assemblies
+    files = {"outer.asm": [" NOP \n", " INCLUDE inner.asm\n"], "inner.asm": ["LI LDA #1\n"], "bad.asm": [" INCLUDE gone.asm\n"],
+             "loop.asm": [" INCLUDE loop.asm\n"], "broken.asm": [" NOP \n", " INCLUDE syntax.asm\n"], "syntax.asm": [" FOO 1\n"]}
+    good = [" ORG $1000\n", " INCLUDE outer.asm\n", " BRA LI\n"]
+    for qs in ([[" INCLUDE bad.asm\n"]], [[" INCLUDE loop.asm\n"]], [[" INCLUDE broken.asm\n"]],
+               [[" INCLUDE outer.asm\n", " INCLUDE bad.asm\n"], [" INCLUDE broken.asm\n"], good]):
+        yield dict(p=good, qs=qs, fresh=False, files=files)
+    # the same includer fails while a nested file is temporarily missing, then must assemble as before
+    yield dict(p=good, qs=[dict(lines=good, hide=["inner.asm"])], fresh=False, files=files)
+    yield dict(p=good, qs=[dict(lines=[" INCLUDE outer.asm\n"], hide=["inner.asm"]), [" INCLUDE loop.asm\n"]], fresh=False, files=files)
 
 
 def searches(tier):
@@ -55,7 +65,8 @@ def searches(tier):
 
 
 def render(case):
-    return dict(p=[l.rstrip("\n") for l in case["p"]][:20], history_lengths=[len(q) for q in case["qs"]], fresh=case["fresh"])
+    return dict(p=[l.rstrip("\n") for l in case["p"]][:20], history_lengths=[len(q["lines"] if isinstance(q, dict) else q) for q in case["qs"]],
+                fresh=case["fresh"], files=sorted(case.get("files", {})))
 
 
 def _tables_hash():
@@ -88,6 +99,22 @@ def _jsonable(canon):
 
 
 def execute(case):
+    if case.get("files"):
+        import os
+        with driver.TempDir() as tmp:
+            for name, flines in case["files"].items():
+                with open(os.path.join(tmp, name), "w", newline="") as fh:
+                    fh.write("".join(flines))
+            old = os.getcwd()
+            os.chdir(tmp)
+            try:
+                return _execute(dict(case, fresh=False))
+            finally:
+                os.chdir(old)
+    return _execute(case)
+
+
+def _execute(case):
     labels = []
     tables = _tables_hash()
     p = list(case["p"])
@@ -97,8 +124,19 @@ def execute(case):
         return viol("the list of source lines was modified by assembling it", fid="C17:input-modified", labels=labels)
     failures = 0
     for i, q in enumerate(case["qs"]):
+        hidden = []
+        if isinstance(q, dict):
+            import os
+            for name in q.get("hide", []):
+                os.rename(name, name + ".hidden")
+                hidden.append(name)
+            q = q["lines"]
         qq = list(q)
-        out = driver.assemble(qq)
+        try:
+            out = driver.assemble(qq)
+        finally:
+            for name in hidden:
+                os.rename(name + ".hidden", name)
         if qq != list(q):
             return viol("the list of source lines was modified by assembling it", fid="C17:input-modified", labels=labels)
         if out.kind != "OK":
